@@ -34,6 +34,8 @@ def _type_signature(x):
         return tuple(_type_signature(v) for v in x)
     elif isinstance(x, frozendict.frozendict):
         return frozendict.frozendict({k: _type_signature(v) for k, v in x.items()})
+    elif isinstance(x, float | np.floating) and x == 0:
+        return (type(x), bool(np.signbit(x)))  # 0.0 and -0.0 are equal (and hash equal), but are different values
     else:
         return type(x)
 
